@@ -25,8 +25,8 @@ import (
 //   6 `car filter` (a blockstore session driven by the CLI; field 6 of the input says how to re-run it)
 // and the verdicts of the library's own checkers on the finished file.
 
-// inspectVerdict: Reader.Inspect(true) with default options on the bytes.
-func inspectVerdict(file []byte) Val {
+// c05InspectVerdict: Reader.Inspect(true) with default options on the bytes.
+func c05InspectVerdict(file []byte) Val {
 	rd, err := carv2.NewReader(bytes.NewReader(file))
 	if err != nil {
 		return VT("rej")
@@ -37,8 +37,8 @@ func inspectVerdict(file []byte) Val {
 	return VT("ok")
 }
 
-// verifyVerdict: cmd/car/lib.VerifyCar through the car binary built from the working tree.
-func verifyVerdict(c *Ctx, file []byte) Val {
+// c05VerifyVerdict: cmd/car/lib.VerifyCar through the car binary built from the working tree.
+func c05VerifyVerdict(c *Ctx, file []byte) Val {
 	f, err := os.CreateTemp(c.Work, "vf*.car")
 	if err != nil {
 		panic(err)
@@ -64,7 +64,7 @@ func verifyVerdict(c *Ctx, file []byte) Val {
 	return VT("CRASH")
 }
 
-func batchesFromVal(v Val) [][]Blk {
+func c05BatchesFromVal(v Val) [][]Blk {
 	var out [][]Blk
 	for _, bv := range v.(VL) {
 		var b []Blk
@@ -81,7 +81,7 @@ func batchesFromVal(v Val) [][]Blk {
 	return out
 }
 
-func batchesVal(h [][]Blk) Val {
+func c05BatchesVal(h [][]Blk) Val {
 	out := VL{}
 	for _, b := range h {
 		out = append(out, blksVal(b))
@@ -89,8 +89,8 @@ func batchesVal(h [][]Blk) Val {
 	return out
 }
 
-// runFinalImpl executes the session on the real library; kind 6 is handled by runFilterCLI.
-func runFinalImpl(c *Ctx, kind uint64, o wOpts, roots []cid.Cid, h [][]Blk) Val {
+// c05RunFinalImpl executes the session on the real library; kind 6 is handled by c05RunFilterCLI.
+func c05RunFinalImpl(c *Ctx, kind uint64, o wOpts, roots []cid.Cid, h [][]Blk) Val {
 	ctx := context.Background()
 	dir, err := os.MkdirTemp(c.Work, "fin")
 	if err != nil {
@@ -189,11 +189,11 @@ func runFinalImpl(c *Ctx, kind uint64, o wOpts, roots []cid.Cid, h [][]Blk) Val 
 	default:
 		panic("bad final kind")
 	}
-	return VL{outNil(), outs, finOut, VB(file), inspectVerdict(file), verifyVerdict(c, file)}
+	return VL{outNil(), outs, finOut, VB(file), c05InspectVerdict(file), c05VerifyVerdict(c, file)}
 }
 
-// filterSpec: how a kind-6 case was produced: input archive (roots, blocks, v2?), the CID list, flags.
-type filterSpec struct {
+// c05FilterSpec: how a kind-6 case was produced: input archive (roots, blocks, v2?), the CID list, flags.
+type c05FilterSpec struct {
 	inRoots []cid.Cid
 	inBlks  []Blk
 	inV2    bool
@@ -202,12 +202,12 @@ type filterSpec struct {
 	version int
 }
 
-func (fs filterSpec) val() Val {
+func (fs c05FilterSpec) val() Val {
 	return VL{cidsVal(fs.inRoots), blksVal(fs.inBlks), vbool(fs.inV2), cidsVal(fs.sel), vbool(fs.inverse), VN(uint64(fs.version))}
 }
-func filterSpecFromVal(v Val) filterSpec {
+func c05FilterSpecFromVal(v Val) c05FilterSpec {
 	l := v.(VL)
-	var fs filterSpec
+	var fs c05FilterSpec
 	fs.inRoots = cidsFromVal(l[0])
 	for _, e := range l[1].(VL) {
 		el := e.(VL)
@@ -222,7 +222,7 @@ func filterSpecFromVal(v Val) filterSpec {
 }
 
 // what `car filter` is asked to produce, computed independently: roots and blocks that pass the filter
-func (fs filterSpec) expected() ([]cid.Cid, [][]Blk) {
+func (fs c05FilterSpec) expected() ([]cid.Cid, [][]Blk) {
 	m := map[cid.Cid]bool{}
 	for _, c := range fs.sel {
 		m[c] = true
@@ -243,7 +243,7 @@ func (fs filterSpec) expected() ([]cid.Cid, [][]Blk) {
 	return roots, h
 }
 
-func runFilterCLI(c *Ctx, fs filterSpec) Val {
+func c05RunFilterCLI(c *Ctx, fs c05FilterSpec) Val {
 	dir, err := os.MkdirTemp(c.Work, "flt")
 	if err != nil {
 		panic(err)
@@ -277,10 +277,10 @@ func runFilterCLI(c *Ctx, fs filterSpec) Val {
 	for range h {
 		outs = append(outs, VL{outNil()}) // the command succeeded, so every Put did
 	}
-	return VL{outNil(), outs, outNil(), VB(file), inspectVerdict(file), verifyVerdict(c, file)}
+	return VL{outNil(), outs, outNil(), VB(file), c05InspectVerdict(file), c05VerifyVerdict(c, file)}
 }
 
-func finalInput(kind uint64, o wOpts, roots []cid.Cid, h [][]Blk, extra Val) Val {
+func c05FinalInput(kind uint64, o wOpts, roots []cid.Cid, h [][]Blk, extra Val) Val {
 	var rv Val = cidsVal(roots)
 	if roots == nil {
 		rv = VT("nil")
@@ -296,16 +296,16 @@ func finalInput(kind uint64, o wOpts, roots []cid.Cid, h [][]Blk, extra Val) Val
 			}
 		}
 	}
-	in := VL{VN(kind), o.val(), rv, batchesVal(h), hok, VL{}}
+	in := VL{VN(kind), o.val(), rv, c05BatchesVal(h), hok, VL{}}
 	if extra != nil {
 		in = append(in, extra)
 	}
 	return in
 }
 
-// inspectQueries: the (cid, data) pairs Reader.Inspect(true) hashes while walking a payload window
+// c05InspectQueries: the (cid, data) pairs Reader.Inspect(true) hashes while walking a payload window
 // (CID parsed from the stream, data cut short if the window ends early).
-func inspectQueries(win []byte, tab *VL, seen map[string]bool) {
+func c05InspectQueries(win []byte, tab *VL, seen map[string]bool) {
 	// skip the header frame
 	l, n, err := varint.FromUvarint(win)
 	if err != nil || l > uint64(len(win)-n) {
@@ -337,8 +337,8 @@ func inspectQueries(win []byte, tab *VL, seen map[string]bool) {
 	}
 }
 
-// fileTables: hash and header oracle tables for an arbitrary (possibly damaged) file
-func fileTables(file []byte) (Val, Val) {
+// c05FileTables: hash and header oracle tables for an arbitrary (possibly damaged) file
+func c05FileTables(file []byte) (Val, Val) {
 	hokv, hdrs := scanTables(file)
 	tab := hokv.(VL)
 	seen := map[string]bool{}
@@ -346,7 +346,7 @@ func fileTables(file []byte) (Val, Val) {
 		el := e.(VL)
 		seen[string(el[0].(VB))+"|"+string(el[1].(VB))] = true
 	}
-	inspectQueries(file, &tab, seen)
+	c05InspectQueries(file, &tab, seen)
 	if len(file) >= 51 {
 		var h carv2.Header
 		if _, err := h.ReadFrom(bytes.NewReader(file[11:51])); err == nil && h.DataOffset <= uint64(len(file)) {
@@ -354,14 +354,14 @@ func fileTables(file []byte) (Val, Val) {
 			if h.DataSize < uint64(len(win)) {
 				win = win[:h.DataSize]
 			}
-			inspectQueries(win, &tab, seen)
+			c05InspectQueries(win, &tab, seen)
 		}
 	}
 	return tab, hdrs
 }
 
-func runFinalFileImpl(c *Ctx, file []byte) Val {
-	return VL{inspectVerdict(file), verifyVerdict(c, file)}
+func c05RunFinalFileImpl(c *Ctx, file []byte) Val {
+	return VL{c05InspectVerdict(file), c05VerifyVerdict(c, file)}
 }
 
 func init() {
@@ -369,11 +369,11 @@ func init() {
 		l := in.(VL)
 		kind := uint64(l[0].(VN))
 		if kind == 6 {
-			return runFilterCLI(c, filterSpecFromVal(l[6]))
+			return c05RunFilterCLI(c, c05FilterSpecFromVal(l[6]))
 		}
-		return runFinalImpl(c, kind, wOptsFromVal(l[1]), cidsFromVal(l[2]), batchesFromVal(l[3]))
+		return c05RunFinalImpl(c, kind, wOptsFromVal(l[1]), cidsFromVal(l[2]), c05BatchesFromVal(l[3]))
 	})
 	registerReplay("finalfile", func(c *Ctx, in Val) Val {
-		return runFinalFileImpl(c, []byte(in.(VL)[1].(VB)))
+		return c05RunFinalFileImpl(c, []byte(in.(VL)[1].(VB)))
 	})
 }
